@@ -98,6 +98,9 @@ func main() {
 		writeJSON(*out, SnapshotMode(*profile, *seed, *n, *tier, *keep))
 	case "beginq":
 		writeJSON(*out, BeginKernels(*seed, *n, *driver, *keep))
+	case "rules": // -profile c20|c27|c28 restricts the run to one property's parts; -n 0 = tier default (250 / 3000)
+		RulesOnly = *profile
+		writeJSON(*out, RulesMode(*seed, *n, *tier, *driver, *keep))
 	case "campaign":
 		res := Campaign(*profile, *seed, *n, *tier, *driver, *keep, *par)
 		writeJSON(*out, res)
